@@ -12,27 +12,27 @@ MAIN = "src/main.rs"
 RP = "src/parser/rust_parser.rs"
 CP = "src/parser/code_parser.rs"
 
-m("C01_max_not_plus_one", "C01", G, "match ref_id_result.checked_add(1)\n        {", "match ref_id_result.checked_add(0)\n        {")
-m("C02_lock_minus_one", "C02", G, "let cachable_reference_id = next_reference_id.load(std::sync::atomic::Ordering::Relaxed);",
-  "let cachable_reference_id = next_reference_id.load(std::sync::atomic::Ordering::Relaxed).saturating_sub(1).max(calculated_next_reference_id);")
+m("C01_exhausted_not_sticky", "C01", G, "|id| if id == 0 { None } else { Some(id.wrapping_add(1)) },", "|id| if id == 0 { None } else { Some(id.wrapping_add(1).max(1)) },")
+m("C01_ids_in_complete_files_ignored", "C01", G, "        return Some((max_file_ref, num_missing_refs));", "        if num_missing_refs == 0 && max_file_ref > 1000\n        {\n            return Some((0, 0));\n        }\n\n        return Some((max_file_ref, num_missing_refs));")
+m("C02_interrupted_writes_start", "C02", G, "                    context.cache_next_reference_id(\n                        cachable_reference_id,", "                    context.cache_next_reference_id(\n                        calculated_next_reference_id,")
 m("C02_lock_only_on_success", "C02", G, "                if cachable_reference_id != calculated_next_reference_id\n                {", "                if false\n                {")
 m("C03_tail_skipped_when_large", "C03", G, "        if unwritten_content_start_pos < end_of_file_index\n", "        if unwritten_content_start_pos < end_of_file_index && unwritten_content_start_pos < 65536\n")
 m("C04_lock_written_in_check", "C04", G, "        if missing_reference_count > 0\n        {\n            return Err(\"One or more missing references were found\");",
   "        if let Some(id) = context.cached_next_reference_id { context.cache_next_reference_id(id, context.config.config_dir.as_str()); }\n        if missing_reference_count > 0\n        {\n            return Err(\"One or more missing references were found\");")
 m("C05_exit_status_gt_one", "C05", G, "        if missing_reference_count > 0\n        {\n            return Err(\"One or more", "        if missing_reference_count > 1\n        {\n            return Err(\"One or more")
-m("C06_token_no_space", "C06", CP, 'result.push_str(&format!("[ref: {}] ", reference_id));', 'result.push_str(&format!("[ref:{}] ", reference_id));')
+m("C06_target_position_reverted", "C06", RP, "                                (true, Some(span)) => Some(CodePosition::new(", "                                (true, Some(span)) if span.start() == 0 => Some(CodePosition::new(")
 m("C07_rename_before_flush", "C07", G, "        match scratch_file.file().flush().await\n        {", "        match async_std::fs::metadata(path).await.map(|_| ())\n        {")
 m("C07_write_in_place", "C07", G, "        match async_std::fs::rename(scratch_file.path(), path).await\n", "        match async_std::fs::copy(scratch_file.path(), path).await.map(|_| ())\n")
 m("C08_failure_flag_dropped", "C08", G, "        if reference_updates.failure\n        {", "        if reference_updates.failure && reference_updates.num_inserted_references == 0\n        {")
-m("C08_scratch_not_removed", "C08", G, "        if remove_file(&self.path).is_ok()\n        {}", "        if self.path.is_empty() && remove_file(&self.path).is_ok()\n        {}")
+m("C08_scratch_left_after_failed_rename", "C08", G, "                tracing::event!(tracing::Level::TRACE, \"failed_to_rename_temp_file\");\n", "                tracing::event!(tracing::Level::TRACE, \"failed_to_rename_temp_file\");\n                scratch_file.path.clear();\n")
 m("C15_follow_links", "C15", F, "WalkDir::new(&self.context.config.source_dir)\n", "WalkDir::new(&self.context.config.source_dir).follow_links(true)\n")
 m("C15_ext_case_insensitive", "C15", F, "if self.context.config.rust.extensions.contains(&extension_str)", "if self.context.config.rust.extensions.iter().any(|e| e.eq_ignore_ascii_case(&extension_str))")
-m("C15_source_dir_vs_cwd", "C15", C, "match path::Path::new(&loaded_context.config.config_dir)\n                        .join(&loaded_context.config.source_dir)",
-  "match path::Path::new(\".\")\n                        .join(&loaded_context.config.source_dir)")
-m("C16_default_cache_false", "C16", C, "fn default_use_cache() -> bool\n{\n    true\n}", "fn default_use_cache() -> bool\n{\n    false\n}")
-m("C16_lock_read_regardless", "C16", C, "if !config.use_cache || !cache_path.exists()", "if !cache_path.exists()")
-m("C16_corrupt_lock_to_one", "C16", C, "                    log::warn!(\n                        \"[ref: 31] Failed to parse lock file {}: {}\",\n                        Context::CACHE_FILENAME,\n                        e\n                    );\n                    None",
-  "                    log::warn!(\n                        \"[ref: 31] Failed to parse lock file {}: {}\",\n                        Context::CACHE_FILENAME,\n                        e\n                    );\n                    Some(1)")
+m("C15_ext_ends_with", "C15", F, "if self.context.config.rust.extensions.contains(&extension_str)", "if self.context.config.rust.extensions.iter().any(|e| extension_str.ends_with(e.as_str()))")
+m("C16_default_extensions_wider", "C16", C, 'vec!["rs".to_string()]', 'vec!["rs".to_string(), "rsx".to_string()]')
+m("C16_lock_read_regardless", "C16", C, "        if !config.use_cache\n        {\n            return Ok(None);\n        }\n\n        match std::fs::read_to_string(cache_path)",
+  "        if !config.use_cache && config.source_dir.is_empty()\n        {\n            return Ok(None);\n        }\n\n        match std::fs::read_to_string(cache_path)")
+m("C16_corrupt_lock_to_one", "C16", C, "                    log::warn!(\n                        \"[ref: 31] Failed to parse lock file {}: {}\",\n                        Context::CACHE_FILENAME,\n                        e\n                    );\n                    Ok(None)",
+  "                    log::warn!(\n                        \"[ref: 31] Failed to parse lock file {}: {}\",\n                        Context::CACHE_FILENAME,\n                        e\n                    );\n                    Ok(Some(1))")
 m("C17_abort_on_unreadable", "C17", G, "            if let Some(file_contents) = load_code(&path).await\n            {", "            let loaded = load_code(&path).await;\n            if loaded.is_none() { return None; }\n            if let Some(file_contents) = loaded\n            {")
 m("C18_flag_not_polled", "C18", G, "            if stop_flag.load(std::sync::atomic::Ordering::Relaxed)\n            {\n                return None;\n            }\n\n            let path = file.path.clone();",
   "            let path = file.path.clone();")
